@@ -2662,3 +2662,23 @@ def h_opt_unwrap_or_else(I, st, callee, target, args, ctx):
             return [(st, v.fields[0])]
         return I.apply_callable(st, f, [], ctx)
     raise Unanalysable("Option::unwrap_or_else on %r" % (v,))
+
+
+@ext("core:RangeInclusive<Idx>::contains", "core:Range<Idx>::contains")
+def h_range_contains(I, st, callee, target, args, ctx):
+    r = deref(I, st, args[0])
+    x = deref(I, st, args[1])
+    if isinstance(r, VAdt) and r.adt.endswith("ops::range::RangeInclusive") and len(r.fields) == 3 and isinstance(x, VInt):
+        # a constant `a..=b` (start, end, exhausted = false)
+        lo, hi, ex = r.fields
+        if not (isinstance(ex, VBool) and ex.cond is False):
+            raise Unanalysable("contains on a possibly exhausted RangeInclusive")
+        c1 = I.cmp(st, "Ge", lin_of(st, x), lin_of(st, lo)).cond
+        c2 = I.cmp(st, "Le", lin_of(st, x), lin_of(st, hi)).cond
+        return [(st, VBool(simplify(("and", c1, c2))))]
+    if not (isinstance(r, VAdt) and r.adt.endswith("ops::range::Range") and isinstance(x, VInt)):
+        raise Unanalysable("Range::contains(%r, %r)" % (r, x))
+    lo, hi = r.fields            # half-open (RangeInclusive::new stores end + 1)
+    c1 = I.cmp(st, "Ge", lin_of(st, x), lin_of(st, lo)).cond
+    c2 = I.cmp(st, "Lt", lin_of(st, x), lin_of(st, hi)).cond
+    return [(st, VBool(simplify(("and", c1, c2))))]
